@@ -6,6 +6,7 @@ import (
 	"io"
 	"net/http"
 	"strings"
+	"sync"
 	"sync/atomic"
 	"time"
 
@@ -174,19 +175,26 @@ func (e *c20env) requesterRTSP(path string, until <-chan struct{}) chan c20outco
 		}
 		var out c20outcome
 		out.kind = "ok"
+		// a read that times out inside an item loses the bytes already taken: read without a short deadline and end
+		// the reader by closing the connection when the scenario is over
+		var over int32
+		go func() {
+			<-until
+			atomic.StoreInt32(&over, 1)
+			cl.Close()
+		}()
 		for {
-			select {
-			case <-until:
-				ch <- out
-				return
-			default:
-			}
-			it, err := cl.Next(300 * time.Millisecond)
+			it, err := cl.Next(10 * time.Minute)
 			if err != nil {
-				if kit.ErrTimeout(err) {
-					continue
+				if atomic.LoadInt32(&over) != 0 {
+					ch <- out // still being served when the scenario ended
+					return
 				}
-				out.kind = "closed"
+				if _, torn := err.(*kit.ErrTorn); torn {
+					out.kind = "error:torn-stream:" + err.Error()
+				} else {
+					out.kind = "closed"
+				}
 				ch <- out
 				return
 			}
@@ -459,6 +467,23 @@ func c20Concurrent(e *c20env, sh string, ci int) {
 	until := make(chan struct{})
 	var chans []chan c20outcome
 	pert := kit.H.Perturb([]string{"media.getorcreate.missed", "media.regist.loaded"}, nil, int64(ci)+c.Seed, 0.7, 2*time.Millisecond)
+	// every pull stream created for the path, in registration order
+	var pmu sync.Mutex
+	var pulled []*media.Stream
+	hadConsumer := map[*media.Stream]bool{} // streams a consumer attached to while they were live
+	pert = append(pert, kit.H.On("media.regist.loaded", nil, func(_ string, a []interface{}) {
+		if st, ok := a[0].(*media.Stream); ok && st.Path() == reqPath {
+			pmu.Lock()
+			pulled = append(pulled, st)
+			pmu.Unlock()
+		}
+	}), kit.H.On("media.join.registered", nil, func(_ string, a []interface{}) {
+		if st, ok := a[0].(*media.Stream); ok && st.Path() == reqPath && media.VerifStatus(st) == media.StreamOK {
+			pmu.Lock()
+			hadConsumer[st] = true
+			pmu.Unlock()
+		}
+	}))
 	if forced {
 		// Forced ordering (each step is released after 3 s at the latest, so nothing can hang): both requesters miss
 		// the registry before either has pulled; the requester whose pull registers first is held before it attaches
@@ -536,18 +561,32 @@ func c20Concurrent(e *c20env, sh string, ci int) {
 		detail["streams_total"] = sc - e.baseline.Streams
 		c.Violation("C20:concurrent-first-requests:not-exactly-one-registered-stream", detail)
 	}
-	// A pull that lost the registration race is displaced; it may live on while requesters are attached to it, but a
-	// pull nobody is attached to must let go of the camera. While the camera keeps streaming to everybody, the
-	// number of open camera connections can therefore not stay above the number of requesters still being served.
+	// A pull stream that lost the registration race is displaced. If it has consumers at that moment it lives on (and is
+	// closed by the periodic zero-consumer task some minutes after the last one left: an idle policy, not a leak); a
+	// displaced pull stream that NEVER had a consumer is closed at once and must let go of the camera. While the
+	// camera keeps streaming to everybody, the number of open camera connections can therefore not stay above the
+	// number of pull streams that are registered, have a consumer, or had one while they were live.
 	if reg == 1 {
-		served := func() int64 { return int64(n) - atomic.LoadInt64(&finished) }
-		if !e.await(func() bool { return int64(cam.Open()) <= served() }, 5*time.Second) {
+		entitled := func() int {
+			pmu.Lock()
+			defer pmu.Unlock()
+			k := 0
+			cur := media.Get(reqPath)
+			for _, st := range pulled {
+				if st == cur || st.ConsumerCount() > 0 || hadConsumer[st] {
+					k++
+				}
+			}
+			return k
+		}
+		if !e.await(func() bool { return cam.Open() <= entitled() }, 5*time.Second) {
 			detail["camera_connections_open"] = cam.Open()
-			detail["requesters_still_served"] = served()
+			detail["pull_streams_registered_or_with_consumers_now_or_earlier"] = entitled()
+			detail["pull_streams_created"] = len(pulled)
 			detail["open_pull_goroutines"] = atomic.LoadInt64(&e.pullOpen)
 			c.Violation("C20:concurrent-first-requests:pull-without-requester-keeps-its-camera-connection", detail)
 		} else {
-			c.SetAdd("concurrent_open_camera_connections_vs_served", fmt.Sprintf("%d<=%d", cam.Open(), served()))
+			c.SetAdd("concurrent_open_camera_connections_vs_entitled_pull_streams", fmt.Sprintf("%d<=%d", cam.Open(), entitled()))
 		}
 	}
 	// the camera drops every connection: every requester - also those attached to a pull stream that lost the
